@@ -184,7 +184,7 @@ class TypeHintTagsUnwrappingProvider(CoercerProvider):
 
 
 class IterableCoercerProvider(NormTypeCoercerProvider):
-    CONCRETE_ORIGINS = {set, list, tuple, deque}
+    CONCRETE_ORIGINS = {set, frozenset, list, tuple, deque}
     ABC_TO_IMPL = {
         collections.abc.Iterable: tuple,
         collections.abc.Reversible: tuple,
